@@ -95,7 +95,7 @@ type hist struct {
 	cfg  x.Config
 	rng  *hx.Rng
 	nops int
-	kind string // normal | fill | manyfiles
+	kind string // normal | fill | manyfiles | dirgrow
 }
 
 func (e *engine) wantHist(id string) bool {
@@ -119,6 +119,11 @@ func (e *engine) histories() {
 		case k%13 == 9:
 			h.kind = "manyfiles"
 			h.nops = 45
+		case k%13 == 2:
+			// one directory grows block by block while file data is allocated in between, so that
+			// its blocks are scattered (the directory is relocated when it would need a fifth extent)
+			h.kind = "dirgrow"
+			h.nops = 60
 		}
 		if c.Thorough() && k%7 == 3 {
 			h.nops = 80
@@ -191,6 +196,8 @@ func (e *engine) runHistory(h hist, scratch string) {
 		g.budget = 0
 	case "manyfiles":
 		g.longName = true
+	case "dirgrow":
+		g.longName = true
 	}
 	if cfg.Journal != nil && !*cfg.Journal && g.budget > 0 {
 		g.budget = 8 << 20
@@ -209,6 +216,24 @@ func (e *engine) runHistory(h hist, scratch string) {
 				o = g.next()
 			} else {
 				o = op{kind: "append", path: hx.Pick(h.rng, files), chunks: [][]byte{h.rng.Bytes(1<<20 + h.rng.Intn(2<<20))}}
+			}
+		case h.kind == "dirgrow":
+			switch {
+			case s == 0:
+				o = op{kind: "mkdir", path: "grow"}
+			case s%2 == 1:
+				nm := fmt.Sprintf("g%d_", s)
+				for len(nm) < 200 {
+					nm += string(rune('a' + h.rng.Intn(26)))
+				}
+				o = op{kind: "create", path: join("grow", nm)}
+			default:
+				files := r.ofKind(kFile)
+				if len(files) == 0 {
+					o = g.next()
+				} else {
+					o = op{kind: "append", path: files[len(files)-1], chunks: [][]byte{h.rng.Bytes(1200 + h.rng.Intn(1800))}}
+				}
 			}
 		case h.kind == "manyfiles" && s%3 != 0:
 			dirs := r.dirs()
